@@ -38,7 +38,14 @@ type rdfCase struct {
 	Hash                     int // 0 sha1 1 sha256 2 md5
 	Decomp                   bool
 	Labels                   bool // whether graph labels are used
+	// EscIRI: IRIs with an odd index hold UCHAR escapes of characters that an
+	// IRIREF cannot contain literally (space, '{'), in the form ParseNQuad
+	// delivers them; the canonical output must still be parseable N-Quads.
+	EscIRI bool `json:",omitempty"`
 }
+
+// escIRI is rdfCase.EscIRI of the case being checked (set on entry of checkRDF).
+var escIRI bool
 
 const nBlank = 6
 
@@ -57,6 +64,9 @@ func term(t tref, prefix string, relabel []int) (rdf.Term, bool) {
 		}
 		return tm, true
 	case 1:
+		if escIRI && t.I%2 == 1 {
+			return rdf.Term{Value: fmt.Sprintf(`<http://example.org/r\u0020%d\u007B>`, t.I)}, true
+		}
 		tm, err := rdf.NewIRITerm(fmt.Sprintf("http://example.org/r%d", t.I))
 		if err != nil {
 			panic(err)
@@ -268,6 +278,8 @@ func checkRDF(c rdfCase) *vk.Failure {
 		return nil
 	}
 	vk.Sample("rdf-c14n", c)
+	escIRI = c.EscIRI
+	defer func() { escIRI = false }()
 	nb := map[int]bool{}
 	for _, q := range qs {
 		for _, t := range []tref{q.S, q.O, q.G} {
@@ -294,6 +306,19 @@ func checkRDF(c rdfCase) *vk.Failure {
 		cb, err := fn.f(build(qs, "x", c.Relabel, order))
 		if err != nil {
 			return vk.Failf("c14n-error/"+fn.name, "%s on the relabelled dataset: %v", fn.name, err)
+		}
+		// the canonical form is N-Quads: every statement parses and prints as itself
+		for _, line := range ca {
+			st, err := rdf.ParseNQuad(line)
+			if err != nil || st.String() != line {
+				key := "c14n-output-unparseable/"
+				if c.EscIRI && strings.Contains(line, "http://example.org/r ") {
+					// Recorded finding: the IRIs are rebuilt with NewIRITerm, which
+					// writes the unescaped space and brace literally
+					key = "c14n-output-iri-escape-lost/"
+				}
+				return vk.Failf(key+strings.SplitN(fn.name, "(", 2)[0], "%s returned the statement %q, which does not parse as N-Quads (err=%v); the input statement holds the IRI with \\u escapes", fn.name, line, err)
+			}
 		}
 		if !eqStrings(ca, cb) {
 			return vk.Failf("c14n-label-dependent/"+strings.SplitN(fn.name, "(", 2)[0], "%s gives different canonical forms for a dataset and its blank-relabelled, reordered copy:\n%s\nvs\n%s", fn.name, strings.Join(ca, "\n"), strings.Join(cb, "\n"))
@@ -390,6 +415,7 @@ func checkRDF(c rdfCase) *vk.Failure {
 func drawRDF(t *rapid.T) rdfCase {
 	var c rdfCase
 	c.Labels = rapid.IntRange(0, 3).Draw(t, "labels") == 0
+	c.EscIRI = rapid.IntRange(0, 7).Draw(t, "esc_iri") == 0
 	shape := rapid.IntRange(0, 4).Draw(t, "shape")
 	nb := rapid.IntRange(1, nBlank).Draw(t, "nblank")
 	bl := func(l string) tref { return tref{0, rapid.IntRange(0, nb-1).Draw(t, l)} }
